@@ -284,3 +284,43 @@ func isEmit2(s ast.Stmt, isEmit func(ast.Expr, string) (*ast.CallExpr, bool), na
 	}
 	return nil, false
 }
+
+// C13 rule range-stable-under-delete (added after probing: `for k := range m { delete(m, k) }` over ten keys visits
+// five and leaves five; deleting a key that has not been visited yet produces another key twice and one never).
+// mapIter.Next walks the node list by slot number (`this.m.nodes[this.pos]`), and mapImp.Delete keeps that list dense
+// by moving its last node into the freed slot (and delete copies the successor's key into the node it keeps): a node
+// the iterator has not reached can land in a slot it has already passed, and a slot it is about to read can receive a
+// key it has already produced. An iterator by slot number and a list that is compacted by moving elements cannot both
+// stay; the rule reports their combination.
+func c13RangeUnderDelete(c *Ctx, std *waStd, mf *waFile, fns map[string]*waFuncDecl) {
+	const rule = "range-stable-under-delete"
+	next, del := fns["mapIter.Next"], fns["mapImp.Delete"]
+	if next == nil || del == nil || next.Decl.Body == nil || del.Decl.Body == nil {
+		c.Undecided(rule, "anchor:mapIter.Next / mapImp.Delete", mf.Rel, "functions not found in map.wa")
+		return
+	}
+	bySlot := false
+	waast.Inspect(next.Decl.Body, func(n waast.Node) bool {
+		if ix, ok := n.(*waast.IndexExpr); ok {
+			if se, ok := ix.X.(*waast.SelectorExpr); ok && se.Sel.Name == "nodes" {
+				if ps, ok := ix.Index.(*waast.SelectorExpr); ok && ps.Sel.Name == "pos" {
+					bySlot = true
+				}
+			}
+		}
+		return true
+	})
+	moves := false
+	waast.Inspect(del.Decl.Body, func(n waast.Node) bool {
+		if as, ok := n.(*waast.AssignStmt); ok && len(as.Lhs) == 1 {
+			if ix, ok := as.Lhs[0].(*waast.IndexExpr); ok {
+				if se, ok := ix.X.(*waast.SelectorExpr); ok && se.Sel.Name == "nodes" {
+					moves = true
+				}
+			}
+		}
+		return true
+	})
+	c.Check(!(bySlot && moves), rule, "mapIter.Next over mapImp.nodes", std.Pos(mf, next.Decl.Pos()), "iteration order independent of slot compaction",
+		"mapIter.Next produces this.m.nodes[this.pos] (iteration by slot number) while mapImp.Delete moves the last node of the list into the freed slot: a delete during a range loop moves a node that has not been visited into a slot that has, or puts an already produced key under the cursor — keys are skipped and produced twice")
+}
